@@ -512,6 +512,7 @@ static int set_global (hawk_rtx_t* rtx, int idx, hawk_nde_var_t* var, hawk_val_t
 			if (rtx->gbl.ofmt.ptr) hawk_rtx_freemem (rtx, rtx->gbl.ofmt.ptr);
 			rtx->gbl.ofmt.ptr = str.ptr;
 			rtx->gbl.ofmt.len = str.len;
+			break;
 		}
 
 		case HAWK_GBL_OFS:
